@@ -118,7 +118,14 @@ class CIGAR(list):
         if not re.match(r"^([0-9]+[MIDP])+\Z", string):
           raise gfapy.FormatError()
     for m in re.finditer("([0-9]+)([MIDNSHPX=])", string):
-      cigar.append(CIGAR.Operation(int(m.group(1)), m.group(2)))
+      try:
+        length = int(m.group(1))
+      except ValueError:
+        # (Python refuses to convert numbers of several thousand digits)
+        raise gfapy.FormatError(
+            "The length of a CIGAR operation cannot be read as a number: "+
+            "{}...".format(m.group(1)[:20]))
+      cigar.append(CIGAR.Operation(length, m.group(2)))
     return cigar
 
   def __str__(self):
